@@ -52,8 +52,12 @@ func main() {
 		}
 	case "dump":
 		os.Exit(cmdDump(os.Args[2:]))
+	case "bounds":
+		os.Exit(cmdBounds(os.Args[2:]))
 	case "callees":
 		os.Exit(cmdCallees(os.Args[2:]))
+	case "debug":
+		os.Exit(cmdDebug(os.Args[2:]))
 	case "census":
 		os.Exit(cmdCensus(os.Args[2:]))
 	default:
@@ -126,7 +130,7 @@ func cmdCheck(args []string) (code int) {
 	if o.tier == "thorough" {
 		cfgs = append(cfgs, cfg{"-tags sio_deadlock", "sio_deadlock", nil, spec.Run})
 	}
-	for _, cf := range cfgs {
+	for i, cf := range cfgs {
 		p := Load(o.repo, cf.tags, cf.env)
 		c := NewCtx(p, spec.ID, o.tier, cf.name)
 		for _, f := range p.SrcFuncs() {
@@ -134,6 +138,14 @@ func cmdCheck(args []string) (code int) {
 		}
 		cf.run(c)
 		mergeCtx(rr, c)
+		if i == 0 && o.tier == "thorough" && spec.Arch386 != nil {
+			// integer-width sensitive rules once more with int/uint = 32 bits (the
+			// type-checked program is the same; only the width model of the prover changes)
+			c32 := NewCtx(p, spec.ID, o.tier, "int/uint modelled as 32 bits (GOARCH=386/arm)")
+			c32.Arch32 = true
+			spec.Arch386(c32)
+			mergeCtx(rr, c32)
+		}
 	}
 	return finish(o.verif, spec, o.tier, seed, rr, started, o.repo)
 }
